@@ -36,6 +36,7 @@ import (
 	"github.com/rqlite/rqlite/v10/internal/random"
 	"github.com/rqlite/rqlite/v10/internal/rsum"
 	"github.com/rqlite/rqlite/v10/internal/rsync"
+	"github.com/rqlite/rqlite/v10/internal/vhook"
 	"github.com/rqlite/rqlite/v10/snapshot"
 	rlog "github.com/rqlite/rqlite/v10/store/log"
 	"github.com/rqlite/rqlite/v10/store/throttler"
@@ -532,6 +533,7 @@ func (s *Store) Open() (retErr error) {
 		return ErrOpen
 	}
 
+	vhook.Trace(s.raftID, "fsm.reset")
 	s.fsmIdx.Store(0)
 	s.fsmTarget.Reset()
 	s.fsmTerm.Store(0)
@@ -1577,6 +1579,7 @@ func (s *Store) Query(ctx context.Context, qr *proto.QueryRequest) (rows []*prot
 		// worse case it will just mean another Strong read. It would be worse to
 		// store the current term, which could be later than when the strong read
 		// was performed.
+		vhook.Trace(s.raftID, "srt.store", "t", readTerm, "idx", af.Index())
 		s.strongReadTerm.Store(readTerm)
 		r := af.Response().(*fsmQueryResponse)
 		return r.rows, level, af.Index(), r.error
@@ -1715,6 +1718,7 @@ func (s *Store) Request(ctx context.Context, eqr *proto.ExecuteQueryRequest) ([]
 	// If we sent any reads through consensus they were strong reads by definition.
 	// Update our strong read term.
 	if nRO > 0 {
+		vhook.Trace(s.raftID, "srt.store", "t", readTerm, "idx", af.Index())
 		s.strongReadTerm.Store(readTerm)
 	}
 
@@ -2424,37 +2428,54 @@ func (s *Store) waitForLinearizableRead(currReadTerm uint64, linearizableTimeout
 	//
 	// See https://groups.google.com/g/raft-dev/c/4QlyV0aptEQ/m/1JxcmSgRAwAJ
 	// for an extensive discussion of this logic.
+	rid := vhook.ID()
+	vhook.Trace(s.raftID, "lr.begin", "rid", rid, "rterm", currReadTerm)
 	if currReadTerm != s.strongReadTerm.Load() {
+		vhook.Trace(s.raftID, "lr.upgrade", "rid", rid)
 		return ErrStrongReadNeeded
 	}
 
 	if s.raft.State() != raft.Leader {
+		vhook.Trace(s.raftID, "lr.abort", "rid", rid, "why", "notleader")
 		return ErrNotLeader
 	}
 	if !s.Ready() {
+		vhook.Trace(s.raftID, "lr.abort", "rid", rid, "why", "notready")
 		return ErrNotReady
 	}
+	vhook.Trace(s.raftID, "lr.leader", "rid", rid)
+	vhook.Gate("lr.leader", s.raftID, rid)
 
 	// Implement the technique from the Raft dissertation, section
 	// 6.4 "Processing read-only queries more efficiently".
 	readIndex := s.raft.CommitIndex()
+	vhook.Trace(s.raftID, "lr.index", "rid", rid, "ci", readIndex)
+	vhook.Gate("lr.index", s.raftID, rid)
 	if err := s.VerifyLeader(); err != nil {
+		vhook.Trace(s.raftID, "lr.abort", "rid", rid, "why", "verify")
 		return err
 	}
+	vhook.Trace(s.raftID, "lr.verified", "rid", rid)
+	vhook.Gate("lr.verified", s.raftID, rid)
 	if s.raft.CurrentTerm() != currReadTerm {
+		vhook.Trace(s.raftID, "lr.abort", "rid", rid, "why", "term")
 		return ErrStaleRead
 	}
+	vhook.Trace(s.raftID, "lr.termok", "rid", rid)
 	lt := time.Duration(linearizableTimeoutParam)
 	if lt == 0 {
 		lt = linearizableTimeout
 	}
 
 	// Now, wait for it.
+	vhook.Trace(s.raftID, "lr.wait", "rid", rid, "target", readIndex)
 	ch := s.fsmTarget.Subscribe(readIndex)
 	select {
 	case <-ch:
+		vhook.Trace(s.raftID, "lr.served", "rid", rid, "fsm", s.fsmIdx.Load())
 		return nil
 	case <-time.After(lt):
+		vhook.Trace(s.raftID, "lr.abort", "rid", rid, "why", "fsmtimeout", "target", readIndex, "fsm", s.fsmIdx.Load(), "applied", s.raft.AppliedIndex())
 		return fmt.Errorf("index %d: %w", readIndex, ErrWaitForFSMTimeout)
 	}
 }
@@ -2491,6 +2512,7 @@ type fsmGenericResponse struct {
 func (s *Store) fsmApply(l *raft.Log) (e any) {
 	startT := time.Now()
 	defer func() {
+		vhook.Trace(s.raftID, "fsm.apply", "idx", l.Index, "term", l.Term)
 		s.fsmIdx.Store(l.Index)
 		s.fsmTarget.Signal(l.Index)
 		s.fsmTerm.Store(l.Term)
@@ -2811,6 +2833,7 @@ func (s *Store) fsmRestore(rc io.ReadCloser) (retErr error) {
 	if err != nil {
 		return fmt.Errorf("failed to get latest snapshot index post restore: %s", err)
 	}
+	vhook.Trace(s.raftID, "fsm.restore", "idx", li, "term", tm)
 	s.fsmIdx.Store(li)
 	s.fsmTarget.Signal(li)
 	s.fsmTerm.Store(tm)
